@@ -568,6 +568,20 @@ def run(ctx):
                    'frame-dependent hydrogen' % (m2.name, q2), m2, c)
     ctx.ob('C04.R3', 'frame-dependent-sites:count', n_sites >= 1,
            '%d call sites of Vector.orthogonal() examined' % n_sites, pmod, pmod.tree)
+    # the order of every atom's bond list: the cell sweep appends bonds in the
+    # order the cells are visited, which depends on where the structure sits.
+    # Single entries of bond lists are used all over the package
+    # (the_carbons[0], bonded_atoms[0], get_bonded_elements(..)[0]), so the
+    # lists must be brought into a frame-independent order after the sweep.
+    box_fn = shared11['fn']
+    sorts = [c for c in calls_in(box_fn, nested=False) if last_attr(c) == 'sort'
+             and norm(c.func.value).endswith('.bonded_atoms')]
+    coord_free = all(not any(isinstance(x, ast.Attribute) and x.attr in ('x', 'y', 'z')
+                             for k in c.keywords for x in ast.walk(k.value)) for c in sorts)
+    ctx.ob('C04.R3', 'bond-lists:frame-independent-order', bool(sorts) and coord_free,
+           'after the cell sweep every bond list is sorted by a key that does not involve '
+           'coordinates (e.g. the position of the atom in the input); found %s'
+           % [norm(c)[:70] for c in sorts], shared11['mod'], sorts[0] if sorts else box_fn)
     # order-sensitive use of single bond-list entries
     tri = ctx.triage_table('c04_bond_order')
     for qual in ('Protonate.trigonal', 'Protonate.tetrahedral'):
